@@ -1,0 +1,27 @@
+//go:build verif
+
+// Contracts checked by /verif/gowp. This file contains comments only and is compiled only
+// with -tags verif.
+
+package binding
+
+// C18 (binding): the ClusterRoleBinding of a provider revision binds only that revision's own
+// system ClusterRole, and only to the service accounts of Deployments that carry an owner
+// reference to this very revision; it must be controllable by the revision.
+
+//@ func (*binding.Reconciler).Reconcile
+//@ props C18
+//@ requires r != nil
+//@ optional site builtin.append($to, $add...) as bind-subject
+//@   where $to == subjects
+//@   assert [C18:subject-is-the-service-account-of-an-owned-deployment] len($add) == 1 && ref.UID == pr.GetUID()
+//@        && $add[0].Kind == "ServiceAccount" && $add[0].Name == d.Spec.Template.Spec.ServiceAccountName && $add[0].Namespace == d.Namespace
+//@ loop range l.Items
+//@   invariant [C18:aux-subject-list-is-its-own-slice] &subjects[0] != &subjectStrings[0]
+//@ loop range d.GetOwnerReferences()
+//@   invariant [C18:aux-subject-list-is-its-own-slice] &subjects[0] != &subjectStrings[0]
+//@ site (resource.Applicator).Apply(_, _, $o, $opts...)
+//@   assert [C18:binds-only-the-revisions-system-role] $o == rb && rb.RoleRef.Kind == "ClusterRole" && rb.RoleRef.APIGroup == "rbac.authorization.k8s.io"
+//@        && rb.RoleRef.Name == "crossplane:provider:" + pr.GetName() + ":system" && rb.Name == "crossplane:provider:" + pr.GetName() + ":system"
+//@   assert [C18:binds-only-the-collected-subjects] rb.Subjects == subjects
+//@   assert [C18,C02:binding-must-be-controllable-by-the-revision] contains($opts, resource.MustBeControllableBy(pr.GetUID()))
